@@ -143,12 +143,19 @@ func runC16(r *ev.Run) {
 		}
 		// ---- mismatch: version word ----
 		if len(data) >= 8 {
-			patched := append([]byte(nil), data...)
-			binary.LittleEndian.PutUint32(patched[4:8], binary.LittleEndian.Uint32(patched[4:8])+1)
-			if out, d := readWithWatchdog(st.fresh(), patched); out != "error" {
-				rep(fmt.Sprintf("c16.%s.version.%s", kind, out), "stream with version+1: "+out+" "+d, nil)
+			cur := binary.LittleEndian.Uint32(data[4:8])
+			// every "other format version": neighbours, 0, the extremes, a byte-swapped and a sign-bit variant
+			for _, v := range []uint32{cur + 1, cur - 1, 0, 2, 255, 256, cur << 24, cur | 1<<31, 1<<32 - 1} {
+				if v == cur {
+					continue
+				}
+				patched := append([]byte(nil), data...)
+				binary.LittleEndian.PutUint32(patched[4:8], v)
+				if out, d := readWithWatchdog(st.fresh(), patched); out != "error" {
+					rep(fmt.Sprintf("c16.%s.version.%s", kind, out), fmt.Sprintf("stream whose version word %d was replaced by %d: %s %s", cur, v, out, d), nil)
+				}
+				r.Count("mismatch:version", 1)
 			}
-			r.Count("mismatch:version", 1)
 		}
 		if r.WantSample() && ci%24 < 8 && ci%5 == 1 {
 			r.Sample(map[string]any{"kind": kind, "state": st.desc, "stream_len": len(data), "prefixes": len(cuts), "field_boundaries": len(bounds)})
